@@ -3,7 +3,7 @@
    any number of synchronised decorators per bar and side — and every
    interleaving. Proofs in SyncProofs.v, DecorProofs.v. *)
 From Coq Require Import Arith ZArith.
-From MPB Require Import Base Sync SyncProofs Filler Decor DecorProofs.
+From MPB Require Import Base Sync SyncProofs Filler Decor DecorProofs BarState Container ContainerProofs ContainerMatrix.
 
 (* all decorators of one column are given one common width ... *)
 Theorem C12_column_common_width : forall c i j, colof c i = colof c j -> answer_of c i = answer_of c j.
@@ -52,6 +52,15 @@ Proof. exact format_width_true_synced. Qed.
 Print Assumptions C12_padded_to_column_width.
 
 (* non-vacuity: 3 bars with 2+1, 1+1 and 2+0 synchronised decorators *)
+(* the columns are built from exactly the bars that render in the cycle: once a cycle's sync request has been
+   served, the heap manager's matrices (rebuilt only when a push asked for it or the heap length changed) come from
+   exactly the bars in the heap, for every accepted trace of the container *)
+Theorem C12_matrices_never_stale : forall p a d evs s hl cs cl s',
+  run (init_cst p a d) evs = Some s -> step s (HM_SYNC hl cs cl) = Some s' ->
+  forall x, cnt x (matrix s') = cnt x (heap s').
+Proof. exact matrix_fresh_after_sync. Qed.
+Print Assumptions C12_matrices_never_stale.
+
 Example C12_nonvacuous :
   let c := mkCfg 7 (fun i => match i with 0|1|2 => 0 | 3|4 => 1 | _ => 2 end)%nat
                    (fun ch => match ch with 0 | 3 | 5 => 0 | 1 | 6 => 1 | _ => 2 end)%nat
